@@ -153,6 +153,9 @@ func (e *evidence) write(path string) error {
 		"external (non-fosite) callees are engine intrinsics: exact models, uninterpreted functions or the real function on concrete arguments (see DESIGN.md section 3)",
 		"Go maps iterate in insertion order in the engine; integers are mathematical Ints with range side-conditions checked per path",
 		"symbolic strings range over printable ASCII with the stated length bounds")
+	for _, d := range interp.Dropped {
+		assum = append(assum, "NOT RUN (harness does not compile against this tree): "+d)
+	}
 	doc := map[string]any{
 		"property_id": e.prop,
 		"tier":        e.tier,
